@@ -481,7 +481,15 @@ func shortStack(s string) string {
 
 // TraceTail formats the last n events.
 func (w *World) TraceTail(n int) []string {
-	w.Mu.Lock()
+	// A caller that reports a violation with the lock in hand must not hang
+	// on its own witness: give up after a while.
+	deadline := time.Now().Add(2 * time.Second)
+	for !w.Mu.TryLock() {
+		if time.Now().After(deadline) {
+			return []string{"(trace unavailable: the world lock was held when the violation was reported)"}
+		}
+		time.Sleep(200 * time.Microsecond)
+	}
 	defer w.Mu.Unlock()
 	t := w.Trace
 	if len(t) > n {
